@@ -114,15 +114,16 @@ def _mutated_docs():
 
 
 SP.wire.update(_mutated_docs())
-KEYSETS = [None, ["test_1.key"], ["test_2.key"], []]      # which configured private keys decrypt
-KEY_DECRYPTS = [True, True, True, False]
+KEYSETS = [None, ["test_1.key"], ["test_2.key"], [], None, None]      # which configured private keys decrypt
+KEY_DECRYPTS = [True, True, True, False, False, False]                 # 4, 5: the tool hands back truncated / non-XML "plaintext"
+GARBLE = [0, 0, 0, 0, 1, 2]
 
 
 def sp_side(m: int, encrypted: bool, signed: bool, sig_ok: bool, keyset: int, want_ass: bool, unsol: bool):
     """A decrypted assertion passes exactly the checks a plain one passes; undecryptable content
     never yields an identity; the first or the second configured key suffices."""
     resp, exc = SP.parse(("m", m, encrypted, signed), False, want_ass, False, True, sig_ok,
-                         can_decrypt=True, allow_unsolicited=unsol, good_keys=KEYSETS[keyset])
+                         can_decrypt=True, allow_unsolicited=unsol, good_keys=KEYSETS[keyset], garble=GARBLE[keyset])
     acc = (resp is not None) and bool(resp.ava) and (resp.name_id is not None)
     content_ok = (m == 0) | ((m == 6) & unsol)
     sig_fine = ((not signed) | sig_ok) & ((not want_ass) | signed)
@@ -148,14 +149,14 @@ CONDITIONS = [
                 "x {encryption tool works / produces nothing}; identity = three concrete sentinels (finite table, exhaustive)"),
     Cond(name="sp_side", fn="sp_side",
          params=[("m", "int"), ("encrypted", "bool"), ("signed", "bool"), ("sig_ok", "bool"), ("keyset", "int"), ("want_ass", "bool"), ("unsol", "bool")],
-         pre=["0 <= m < %d" % len(MUT), "0 <= keyset < 4"],
+         pre=["0 <= m < %d" % len(MUT), "0 <= keyset < 6"],
          partitions={"quick": [{"m": m, "encrypted": e} for m in range(len(MUT)) for e in (False, True)]},
          timeout={"quick": 900, "thorough": 1800}, path_timeout=120,
          functions=["client_base.Base.parse_authn_request_response", "entity.Entity._parse_response",
                     "response.AuthnResponse.parse_assertion/decrypt_assertions/_assertion/condition_ok/get_subject/_bearer_confirmed",
                     "sigver.SecurityContext.decrypt_keys/check_signature/_check_signature"],
          bounds="7 content mutations (audience, expiry, not-yet-valid, confirmation InResponseTo, bearer expiry, unsolicited) applied inside the ciphertext "
-                "and to the plain twin; assertion signed/unsigned x verdict; keys: all / first only / second only / none decrypt; want_assertions_signed; allow_unsolicited"),
+                "and to the plain twin; assertion signed/unsigned x verdict; keys: all / first only / second only / none decrypt, decryption yielding truncated or non-XML text; want_assertions_signed; allow_unsolicited"),
 ]
 
 ASSUMPTIONS = [
